@@ -6,6 +6,8 @@
 // Second family (Case.Copies): the SAME replica (same labels incl. replica labels, same samples) is served by two
 // (thorough: three) stores with a different chunk cut on each store, so that the chunk list the proxy merges for that one
 // series contains duplicates, partial overlaps and chunks nested in earlier, longer chunks followed by newer chunks.
+// Third family (Case.TSDB, tsdb_test.go): the stores are REAL store.TSDBStore instances over real tsdb.DB heads with a
+// frame budget so small that one series is sent in several frames.
 package c04
 
 import (
@@ -656,9 +658,16 @@ func TestCheck(t *testing.T) {
 		"x {dedup on identical replicas, dedup on distinct replicas, dedup off} x step {10s; 1s for identical replicas, R<=2} [t, R<=2: x lazy/eager x batch 1/3]; " +
 		"PLUS the same replica served by two stores: every ordered pair of the 38 cuts (store 0, store 1) x {alone; next to a second replica (q: pairs of 23 of the 38 cuts) with cut q 1 / t 5 on store q {0, own} / t {0,1,own}} " +
 		"x logical series x replica labels x support x framing x the three dedup modes (alone: x step 1s [t: x lazy x batch]) [t: the same replica on three stores, all triples of 14 cuts]; " +
-		"non-trivial = distinct dedup-on cases with >= 2 replicas whose chunk cuts differ or overlap, and distinct cases (any dedup mode) where one replica is served by several stores with different cuts " +
-		"(extra counters: cases_same_replica_on_several_stores, cases_dedup_off_nested_chunk_then_newer_chunk)")
-	r.Assume("stores are fakes that behave like a conforming StoreAPI (series sorted by labels, chunks by min time; with WithoutReplicaLabels support they strip the labels and re-sort); " +
+		"PLUS real stores (enumerated first): R=1..2 replicas held by real store.TSDBStore instances over real tsdb.DB heads, one or two stores, head chunk range per store q {1,2,3,big} (second store {1,3}) / t {1,2,3,4,6,big} sample intervals " +
+		"(= cuts 6x1, 2-2-2, 2-3-1, 4-2, 2-4, 6) x TSDBStore frame budget {1 chunk, 2 chunks, [t: 3 chunks,] production 1 MiB} x replica labels {external labels of the store, labels of the stored series (replicas may share a store), r external + replica stored} " +
+		"x logical series x replica label sets x the three dedup modes (identical: x step 1s) x (response batch size, retrieval) q {(1,eager),(3,eager),(1,lazy)} / t {1,3}x{eager,lazy} x {no further store; a fake store serving replica 0 again cut " +
+		"q {3-3 with, 6x1 without WithoutReplicaLabels support} / t {3-3, 6x1, 6} x support}; " +
+		"non-trivial = distinct dedup-on cases with >= 2 replicas whose chunk cuts differ or overlap, distinct cases (any dedup mode) where one replica is served by several stores with different cuts, " +
+		"and distinct cases where a real TSDBStore sent one stored series in >= 2 frames (observed on the stream between store and proxy) " +
+		"(extra counters: cases_same_replica_on_several_stores, cases_dedup_off_nested_chunk_then_newer_chunk, cases_real_tsdbstore, cases_real_tsdbstore_series_in_several_frames, max_frames_per_series_from_real_tsdbstore)")
+	r.Assume("stores are fakes that behave like a conforming StoreAPI (series sorted by labels, chunks by min time; with WithoutReplicaLabels support they strip the labels and re-sort), " +
+		"or real TSDBStores used in process (storepb.ServerAsClient, as receive and query do) whose unexported frame budget maxBytesPerFrame is set through a thin in-package adapter; " +
+		"the chunk cut of a real store is the one its tsdb head makes (chunk range = MinBlockDuration), verified when the head is built; " +
 		"raw XOR float chunks; query range = exactly the sample range; penalty dedup; partial response disabled")
 	dbRoot = t.TempDir()
 	defer closeDBs()
